@@ -29,11 +29,136 @@ def sched_str(h, ninputs):
                     for op, s, i in h)
 
 
+CACHE_PROG = ("(|Dw N Op| Dw entry (pos == N) (|D| if (Op == 0) then (?(D ?root) 1 || 0) "
+              "else (D parent offset || 99999)))")
+SHAPE = [0, 1, 2, 1]       # Shapes[1] of tla/Cache.tla: DIE 1 root; 2, 4 its children; 3 child of 2
+NUNITS = 3
+
+
+def cache_histories(vd, drv, wd, tier, rng):
+    """tla/Cache.tla: the caches hanging off a Dwarf value answer every history of questions as a
+    fresh process would.  Model-checked; the histories of tla/CacheGen.tla are replayed on one shared
+    Dwarf value through one compiled query."""
+    sys.path.insert(0, os.path.join(common.VERIF, "gen"))
+    import dwarfgen
+    for shape in (1, 2, 3):
+        r = tlc.run_tlc("Cache", constants={"NUnits": NUNITS, "ShapeId": shape, "MaxOps": 3 if tier == "quick" else 4,
+                                            "PinnedRootFrom": False, "PinnedParSub": False},
+                        spec="Spec", invariants=["HistoryIndependent"], props=["AppendOnly"], workers=4, timeout=900)
+        if r.violated:
+            vd.observe("model:cache:shape%d:%s" % (shape, r.violated), {"output": r.out[-4000:]})
+        elif not r.ok:
+            raise common.ToolError("TLC Cache failed\n" + r.out[-2000:])
+        vd.add_states(r)
+    # non-vacuity: the incomplete fills are caught by the same invariant
+    for pin in ("PinnedRootFrom", "PinnedParSub"):
+        c = {"NUnits": NUNITS, "ShapeId": 1, "MaxOps": 3, "PinnedRootFrom": False, "PinnedParSub": False}
+        c[pin] = True
+        r = tlc.run_tlc("Cache", constants=c, spec="Spec", invariants=["HistoryIndependent"], workers=2, timeout=300)
+        if r.violated != "HistoryIndependent":
+            raise common.ToolError("Cache.tla: mutant %s not caught\n%s" % (pin, r.out[-1500:]))
+    nd = len(SHAPE)
+    def did(u, d): return (u - 1) * nd + d
+    def die(u, d):
+        kids = [c + 1 for c in range(nd) if SHAPE[c] == d]
+        return {"id": did(u, d), "tag": 0x11 if d == 1 else (0x39 if kids else 0x34), "has_children": bool(kids),
+                "children": [die(u, k) for k in kids], "attrs": [{"name": 0x03, "form": "string", "value": "d%d" % did(u, d)}]}
+    forest = {"units": [{"kind": "cu", "version": 4, "table": 0, "root": die(u, 1)} for u in range(1, NUNITS + 1)]}
+    obj, offs, _ = dwarfgen.build(forest, wd, "cachedw")
+    off = {int(k[4:]): v for k, v in offs.items() if k.startswith("die_")}
+    hf = os.path.join(wd, "cachehist.ndjson")
+    g = tlc.run_tlc("CacheGen", constants={"NUnits": NUNITS, "ShapeId": 1, "MaxLen": 2 if tier == "quick" else 3,
+                                           "OutFile": hf, "Shard": 0, "NShards": 1}, workers=1, timeout=900, heap="6g")
+    if not os.path.exists(hf):
+        raise common.ToolError("CacheGen failed\n" + g.out[-2000:])
+    hists = [json.loads(l) for l in open(hf) if l.strip()]
+    qs = [(o, u, d) for o in ("root", "parent") for u in range(1, NUNITS + 1) for d in range(1, nd + 1)]
+    for _ in range(300 if tier == "quick" else 5000):
+        hists.append([{"op": o, "u": u, "d": d, "a": (1 if d == 1 else 0) if o == "root" else SHAPE[d - 1]}
+                      for (o, u, d) in [rng.choice(qs) for _ in range(rng.randrange(3, 9))]])
+    pairs = [(did(u, d) - 1, 0 if o == "root" else 1) for (o, u, d) in qs]
+    idx = {q: i for i, q in enumerate(qs)}
+    shared = '*"%s" dwopen (%s)' % (obj, ", ".join("%d %d" % pr for pr in pairs))
+    def expect(q):
+        if q["op"] == "root":
+            return q["a"]
+        return 99999 if q["a"] == 0 else off[did(q["u"], q["a"])]
+    cmds = []
+    # the harness itself: every question alone, in a fresh process state, must get the model's answer
+    for i, (o, u, d) in enumerate(qs):
+        cmds.append("\t".join(["run", "f%d" % i, "max=10", zw.hexq('"%s" dwopen %d %d %s' % ((obj,) + pairs[i] + (CACHE_PROG,)))]))
+    for j, h in enumerate(hists):
+        sched = ",".join("e0:%d,p0,p0,d0" % idx[(q["op"], q["u"], q["d"])] for q in h)
+        cmds.append("\t".join(["hist", "h%d" % j, "t=30", zw.hexq(CACHE_PROG), sched, zw.hexq(shared)]))
+    res = zw.run_driver(drv, cmds, wd, tag="cache")
+    byid = {r.get("id"): r for r in res}
+    for i, (o, u, d) in enumerate(qs):
+        r = byid.get("f%d" % i)
+        q = {"op": o, "u": u, "d": d, "a": (1 if d == 1 else 0) if o == "root" else SHAPE[d - 1]}
+        got = [int(sk[-1]["v"]) for sk in (r or {}).get("results", [])]
+        if got != [expect(q)]:
+            # a single fresh question answered wrongly is not a history effect: C05's business, not C12's
+            raise common.ToolError("C12 cache harness: fresh `%s' of unit %d DIE %d gives %s, model %s" % (o, u, d, got, expect(q)))
+    n_ok = 0
+    for j, h in enumerate(hists):
+        r = byid.get("h%d" % j)
+        key = "cache history " + " ".join("%s(%d.%d)" % (q["op"], q["u"], q["d"]) for q in h)
+        vd.cov["evaluations"] += 1
+        if r is None or r.get("status") != "ok":
+            vd.observe(key, {"why": "crash/timeout", "observed": r, "file": obj})
+            continue
+        outs, cur = [], None
+        for st in r["steps"]:
+            if st["op"][0] == "e":
+                cur = []; outs.append(cur)
+            elif st["op"][0] == "p" and not st.get("skip") and st.get("out"):
+                cur.append(int(st["out"][-1]["v"]))
+        want = [[expect(q)] for q in h]
+        if outs != want:
+            vd.observe(key, {"why": "answers on a reused Dwarf value differ from the fresh answers",
+                             "expected": want, "observed": outs, "program": CACHE_PROG, "file": obj})
+        else:
+            n_ok += 1
+    vd.cov["traces_validated_against_impl"] += n_ok
+    return len(hists)
+
+
+# forms whose compilation goes through parser helpers with their own objects: N backticks before a
+# capture drop N values below the new sequence
+ORDER_EXTRA = ["1 2 3 `[7]", "1 2 3 ``[7]", "1 2 3 ```[7]", "1 2 3 `[|A| A]", "1 2 3 ``[|A| A]", "1 2 3 `[]", "1 2 3 ``[]",
+               "1 2 3 (`[7], ``[7])", "1 2 3 (``[], `[])"]
+
+
+def compile_order(vd, drv, wd):
+    """A query compiled after other queries in the same process means what it means in a fresh process."""
+    progs = ["(5) " + p for p in PROGRAMS] + ORDER_EXTRA
+    def batch(order, tag):
+        cmds = ["\t".join(["run", str(i), "max=200", zw.hexq(progs[i])]) for i in order]
+        return {r.get("id"): r for r in zw.run_driver(drv, cmds, wd, tag=tag)}
+    fwd = batch(list(range(len(progs))), "order-fwd")
+    rev = batch(list(reversed(range(len(progs)))), "order-rev")
+    alone = {}
+    for i in range(len(PROGRAMS), len(progs)):
+        alone.update(batch([i], "order-alone%d" % i))
+    def sig(r):
+        return json.dumps({k: (r or {}).get(k) for k in ("status", "results")}, sort_keys=True)
+    for i, p in enumerate(progs):
+        vd.cov["evaluations"] += 1
+        ref = alone.get(str(i), fwd.get(str(i)))
+        for name, got in (("after the programs before it", fwd.get(str(i))), ("after the programs behind it", rev.get(str(i)))):
+            if sig(got) != sig(ref):
+                vd.observe("compile order: `%s' compiled %s" % (p, name),
+                           {"why": "differs from a fresh process", "fresh": ref, "observed": got})
+    return len(progs)
+
+
 def run(tier):
     vd = common.Verdict(PID, tier)
     wd = common.scratch(PID)
     bdir = common.build("plain")
     rng = random.Random(common.seed())
+    ncache = cache_histories(vd, os.path.join(bdir, "bin", "zwdrv"), wd, tier, rng)
+    norder = compile_order(vd, os.path.join(bdir, "bin", "zwdrv"), wd)
     # 1. the design: private state per result set, shared immutable op graph
     for body in range(1, 8):
         r = tlc.run_tlc("Api", constants={"PinnedMerge": False, "NSlots": 2 if tier == "quick" else 3,
@@ -133,14 +258,18 @@ def run(tier):
         elif sum(1 for st in r["steps"] if st.get("out")) >= 2:
             nontriv.add(key)
     vd.cov["distinct_nontrivial"] = len(nontriv)
-    vd.cov["traces_validated_against_impl"] = len(meta)
+    vd.cov["traces_validated_against_impl"] += len(meta)
     vd.sample({"program": meta[3][0], "schedule": sched_str(meta[3][2], 3)})
     return vd.finish(rule="histories over result slots: all canonical schedules up to the length bound from tla/ApiGen.tla "
                      "plus random longer ones, for %d core programs (every stateful op class) and %d DWARF programs with "
                      "shared Dwarf values; each slot's pulled sequence must be a prefix of a fresh parse-and-run on that "
                      "input and end where it ends; inputs must be unchanged; the design (private buffer per result, "
-                     "shared op graph) is model-checked in tla/Api.tla; non-trivial = schedules with >= 2 yielded stacks"
-                     % (len(PROGRAMS), len(DW_PROGRAMS)), extra={"schedules": len(scheds)})
+                     "shared op graph) is model-checked in tla/Api.tla; non-trivial = schedules with >= 2 yielded stacks; "
+                     "the caches a Dwarf value carries (root list, per-unit parent tables) are model-checked in tla/Cache.tla "
+                     "and every history of ?root/parent questions from tla/CacheGen.tla (plus random longer ones) over a "
+                     "generated 3-unit file is asked through one compiled query on one shared Dwarf value; every program is also "
+                     "compiled in two opposite orders within one process and must mean what it means in a fresh process"
+                     % (len(PROGRAMS), len(DW_PROGRAMS)), extra={"schedules": len(scheds), "cache_histories": ncache, "compile_order_programs": norder})
 
 def replay(path):
     print(open(path).read())
